@@ -107,6 +107,12 @@ def decOffset (amount : Nat) : M Unit :=
 def setOffset (v : Nat) : M Unit :=
   modify fun s => { s with offset := v }
 
+/-- `Frame::getSize` / `Frame::setSize`. -/
+def getSize : M Nat := do return (← get).size
+
+def setSize (v : Nat) : M Unit :=
+  modify fun s => { s with size := v }
+
 def incOffsetN : Nat → M Unit
   | 0 => pure ()
   | n + 1 => do incOffset 1; incOffsetN n
@@ -251,10 +257,16 @@ def exprCallKind (ctx : Ctx) (sys : Int) (f : String) : M CallKind :=
     let sym ← (ctx.tbl.lookup ctx.scope f : Except CDiag Symbol)
     pure (if sym.type = .func then CallKind.func f else CallKind.proc f)
 
-/-- `genSysCall` / `genFuncCall` / `genProcCall` (2633-2680) over the generators of the two
-    passes over the actuals (`genCallActuals`, second loop of `loadActuals`). -/
+/-- `genSysCall` / `genFuncCall` / `genProcCall` with `genActuals` (2644-2705) over the generators
+    of the two passes over the actuals (`genCallActuals`, second loop of `loadActuals`).
+    `genActuals` measures the deepest frame offset reached while the actuals are generated (by
+    resetting the running `Frame::size` to the current offset) and allocates the outgoing area
+    (link, result, parameters) from there. -/
 def callSeq (kind : CallKind) (nargs ncalls : Nat) (actuals : M Code) (load : Nat → Nat → M Code) : M Code := do
   let stackOffset ← getOffset
+  -- genActuals
+  let frameSize ← getSize
+  setSize stackOffset
   -- genCallActuals
   let c1 ← actuals
   setOffset stackOffset
@@ -262,6 +274,9 @@ def callSeq (kind : CallKind) (nargs ncalls : Nat) (actuals : M Code) (load : Na
   let savedOffset ← getOffset
   incOffsetN ncalls
   let c2 ← load kind.paramOffset savedOffset
+  let deepestOffset ← getSize
+  setSize (max frameSize deepestOffset)
+  setOffset deepestOffset
   incOffset (nargs + kind.paramOffset)
   let c3 ← callTailM kind
   setOffset stackOffset
